@@ -618,6 +618,19 @@ func checkC17(res *world.Result, s *simrt.Sim, sc *Scenario, logs []*PlugLog, ho
 		}
 		res.Count("c17.success-runs", 1)
 	}
+	if host.Err != nil && len(reasons) == 0 && !sc.APICrossParent && !sc.DotDotName {
+		lateOnly := false // a plugin that fails only at goodbye, after the files were written
+		for _, ps := range sc.Plugins {
+			if ps.Fails() {
+				lateOnly = true
+			}
+		}
+		if !lateOnly {
+			// nothing that the property lists as a cause of failure happened: the files belong at
+			// their determined paths, and a run that refuses to write them has not put them there
+			res.Failf("C17/spurious-failure", "nothing failed (every Thrift file lies under the root, no module or plugin fails, no two sources collide) but the host failed and wrote nothing: %s", hostErr)
+		}
+	}
 	if host.Err != nil {
 		res.Count("c17.failed-runs", 1)
 		if len(outChanged) == 0 {
